@@ -142,7 +142,7 @@ def case14_to_coq(c):
             raise ValueError("rename returned nothing at the declaration at %d" % d["pos"])
         es = ["(%d, %d, %d)" % (e[0], e[1], name_index(e[2])) for e in edits]
         decls.append("{| o_pos := %d; o_name := %d; o_cells := %s; o_edits := %s |}" % (
-            d["pos"], d["name"], coq_list([str(x) for x in d["cells"]]), coq_list(es)))
+            d["pos"], d["name"], coq_list(["(%d, %d)" % (x[0], x[1]) for x in d["cells"]]), coq_list(es)))
     return "{| c_prog := %s; c_text := %s; c_fresh := %d; c_decls := %s |}" % (
         c["coq"], coq_text(c["text"]), c["fresh"], coq_list(decls))
 
